@@ -752,7 +752,7 @@ def main(chk: Check, replay: dict | None = None) -> int:
             chk.cov["chunk_shape_differences"] = {"cases": len(shape), "first": first["input"]}
             chk.say(f"[C18] note: iter_bytes/aiter_text items are cut differently from the model's on {len(shape)} case(s) "
                     f"(not part of the property; concatenations are checked); smallest: {json.dumps(first['input'])[:200]}")
-    chk.decide(cases, dcodes, {1: "F18a", 2: "F18c"},
+    chk.decide(cases, dcodes, {1: "F18a"},
                "Corr.C18.run: model(chunks) = real helpers over httpx.Response(content=<async chunk iterator>)")
     if codes is not None:
         diag = {}
